@@ -99,27 +99,12 @@ theorem powFrac_den_pos {b : Nat} (hb : 0 < b) (e : Int) (m : Nat) : 0 < (powFra
   · exact Nat.pow_pos hb
 
 /-- `Bracket` depends only on the rational -/
-theorem bracket_congr {F : FTy} {fp : ExtendedFloat80} {x y : Nat × Nat} (hx : 0 < x.2) (hy : 0 < y.2)
-    (h : RatEq x y) (hb : Bracket F fp x.1 x.2) : Bracket F fp y.1 y.2 := by
+theorem bracket_congr {F : FTy} (hF : IsLemireFloat F) {fp : ExtendedFloat80} {x y : Nat × Nat} (hx : 0 < x.2)
+    (hy : 0 < y.2) (h : RatEq x y) (hb : Bracket F fp x.1 x.2) : Bracket F fp y.1 y.2 := by
+  obtain ⟨p, eb, lay⟩ := layout_of hF
   unfold C01.Bracket at *
-  unfold RatEq at h
-  obtain ⟨h1, h2⟩ := hb
-  generalize ival F.fmt (C01.roundedDown F fp) = A at *
-  generalize ival F.fmt (C01.roundedDown F fp + 1) = B at *
-  generalize 2 ^ L F.fmt = C at *
-  constructor
-  · apply Nat.le_of_mul_le_mul_right _ hx
-    calc A * y.2 * x.2 = A * x.2 * y.2 := by ac_rfl
-      _ ≤ x.1 * C * y.2 := Nat.mul_le_mul_right _ h1
-      _ = x.1 * y.2 * C := by ac_rfl
-      _ = y.1 * x.2 * C := by rw [h]
-      _ = y.1 * C * x.2 := by ac_rfl
-  · apply Nat.lt_of_mul_lt_mul_right (a := x.2)
-    calc y.1 * C * x.2 = y.1 * x.2 * C := by ac_rfl
-      _ = x.1 * y.2 * C := by rw [h]
-      _ = x.1 * C * y.2 := by ac_rfl
-      _ < B * x.2 * y.2 := Nat.mul_lt_mul_of_pos_right h2 hy
-      _ = B * y.2 * x.2 := by ac_rfl
+  rw [← roundNE_congr' lay.wf hx hy h]
+  exact hb
 
 /-- the digit values of a `Number`'s slices are below the radix -/
 theorem numberLit_digits_lt (c : Cfg) (n : Number) :
@@ -194,7 +179,7 @@ theorem numberToFloat_of_contracts (slow : SlowRadix) {F : FTy} (hF : IsLemireFl
     simp only []
     by_cases hneg : fp.exp < 0
     · rw [if_pos hneg]
-      have hbr := bracket_congr hpd hld hx (hinv hneg)
+      have hbr := bracket_congr hF hpd hld hx (hinv hneg)
       rw [toNative_eq F _ _ (hslow fp hm hneg hbr), ← sf]
       unfold roundSigned; rw [hcg]
     · rw [if_neg hneg]
@@ -325,6 +310,23 @@ theorem pipeline_lemire_partial (slow : SlowRadix) {F : FTy} (hF : IsLemireFloat
   simp only []
   rw [lemire_untruncated F (numOf n) hmany]
   exact e1
+
+/-- **(ii′) Eisel–Lemire, every `q ≥ 0`, decided**: unconditional (`cfSound_nonneg` — exact rows and the truncated
+rows `28 ≤ q ≤ 308` by the stability argument). -/
+theorem pipeline_lemire_nonneg (slow : SlowRadix) {F : FTy} (hF : IsLemireFloat F) (c : Cfg)
+    (hcompact : c.feats.compact = false) (hr : c.mantissaRadix = 10) (hb : c.exponentBase = 10)
+    (n : Number) (hmany : n.manyDigits = false) (hx : NumberExactAt c n) (hq0 : 0 ≤ n.exponent)
+    {fp : ExtendedFloat80} (hcf : Lemire.computeFloat F n.exponent n.mantissa false = .ok fp) (hv : 0 ≤ fp.exp) :
+    numberToFloat slow c F n false = some (litBits F.fmt c.mantissaRadix c.exponentBase (numberLit c n)) := by
+  obtain ⟨hw, _, hre⟩ := hx
+  apply numberToFloat_decided slow hF c (by omega) (by omega) (by omega) n hmany hre
+    (fastContract_decimal hF c hr n) (fp := fp) ?_ hv
+    (by rw [hb]; exact C01.cfSound_nonneg F hF n.exponent hq0 n.mantissa hw fp hcf hv)
+  unfold moderatePath
+  rw [hr, backend_lemire _ hcompact]
+  simp only []
+  rw [lemire_untruncated F (numOf n) hmany]
+  exact hcf
 
 theorem backend_bellerophon_compact (feats : Features) (hc : feats.compact = true) :
     backend feats 10 = .bellerophon := by
@@ -520,6 +522,19 @@ theorem C01_main (hL : lemire_sound) (slow : SlowRadix) (hS : SlowPathCorrect sl
   have hr' : (⟨feats, fmt, false⟩ : Cfg).mantissaRadix = 10 := hr
   have hb' : (⟨feats, fmt, false⟩ : Cfg).exponentBase = 10 := hb
   rw [(spec_forms hF ⟨feats, fmt, false⟩ (by omega) (by omega) (by omega) n hmany hx.2.2).2]
+
+/-- `C01_main` with `lemire_sound` replaced by its two open sub-lemmas (`lemire_sound_reduction`): what the
+correctness of decimal parsing on the models rests on, exactly -/
+theorem C01_main_open (hneg : C01.LemireNegSound) (hfb : C01.LemireFallbackBrackets) (slow : SlowRadix)
+    (hS : SlowPathCorrect slow) (hN : NumberExact)
+    (feats : Features) (hcompact : feats.compact = false) (fmt : Format)
+    (hr : fmt.mantissaRadix = 10) (hb : fmt.exponentBase = 10)
+    (hclass : feats.format = false ∨ C12.SepPrefixFree fmt)
+    (o : POpts) {F : FTy} (hF : IsLemireFloat F) (isPartial : Bool) (s : List Nat)
+    (hfew : ∀ n cnt, parseFloatSyntax ⟨feats, fmt, false⟩ o isPartial s (formatError feats fmt).isNone =
+      .ok (.number n cnt) → n.manyDigits = false) :
+    parseFloatAlgoModel slow feats fmt o isPartial F s = parseFloatModel feats fmt o isPartial F.fmt s :=
+  C01_main (C01.lemire_sound_reduction hneg hfb) slow hS hN feats hcompact fmt hr hb hclass o hF isPartial s hfew
 
 /-- the same conclusion in the grammar's terms, complete parser: when the model accepts a number, the documented
 grammar derives the input (`numberOk`), the `Number`'s slices are the derivation's integer and fraction digits,
